@@ -16,12 +16,22 @@ PROP = dict(
           "starting rate none / carried / above budget ceiling / above max), a drawn sequence of wallet "
           "answers (nil, ErrInsufficientFee, ErrMempoolMinFeeNotMet, ErrMempoolFee, ErrMinRelayFeeNotMet, "
           "ErrBackendVersion, ErrUnimplemented, ErrMissingInputs, other) and a walk of 2..16 block beats with "
-          "skipped heights and spend notifications. Non-trivial = at least one fee-related (RBF) rejection and "
+          "skipped heights and spend notifications. In a third of the cases the publisher runs with a harness "
+          "AuxSweeper (custom channels) that follows the interface contract from generated facts: each input "
+          "carries a resolution blob or not, cells NO-blob / ALL-blob / MIXED (blob inputs grouped with a wallet "
+          "utxo, anchor or plain output; 50% of the aux cases); DeriveSweepAddr returns one extra P2TR output of "
+          "330..1000 sat iff any passed input has a blob; the reference weight (hence the ceiling budget/size and "
+          "the max-rate bound) gains the extra output's 172 wu from those facts, and the per-tx oracle wants the "
+          "extra output iff expected and NotifyBroadcast(tx, true fee, request.ExtraTxOut) before every publish. "
+          "Non-trivial = at least one fee-related (RBF) rejection and "
           "at least one publication. (3) Aggregator: 1..10 offered inputs with per-input budget / deadline / "
           "starting rate / immediate / exclusive group and 0..4 wallet utxos through the real "
           "BudgetAggregator.ClusterInputs -> BudgetInputSet (NeedWalletInput/AddWalletInputs) -> BumpRequest as "
           "UtxoSweeper.sweep builds it -> the same publisher walk; failed sets are re-offered once with the "
-          "publisher-reported starting rate, some inputs dropped, and re-clustered. Non-trivial = a publication "
+          "publisher-reported starting rate, some inputs dropped, and re-clustered. A third of the cases use the "
+          "harness AuxSweeper on aggregator and publisher: 60% of the channel outputs carry a blob, half of those an "
+          "extra budget of 1..2000 sat (set budget = sum of budgets + extra budgets, NeedWalletInput counts it as "
+          "needed); lnd's own wallet top-ups make the sets MIXED. Non-trivial = a publication "
           "from a multi-input set, a set with a wallet top-up, or after an RBF rejection. "
           "(4) Sweeper: a drawn sequence of 6..28 actions on one real UtxoSweeper wired to the real TxPublisher and "
           "BudgetAggregator (stub wallet / estimator / notifier / store; handlers of the collector loop called "
@@ -40,7 +50,8 @@ PROP = dict(
         "fee rates are measured against the BIP-141 upper-bound weight (per-witness-type bounds published by package input, one change output of the delivery script), which is how lnd defines the rate of a sweep; the serialized transaction can be lighter (shorter signatures, no change output)",
         "when the change would be dust it is, as documented in prepareSweepTx, added to the fee: for a transaction without change output the fee-rate bound is relaxed by dust_limit(change script)-1 sat (fee <= budget is still enforced exactly)",
         "a block beat is delivered by calling TxPublisher.processRecords after storing the height and waiting on the publisher's wait group (what monitor() does per beat); chainio.BeatConsumer plumbing is not exercised",
-        "no AuxSweeper (no extra outputs / extra budget), half of the anchor inputs carry an unconfirmed parent (CPFP, fee and weight of the commitment) as contractcourt sets it - the budget, maximum-rate and reported-rate bounds speak about the sweep transaction itself, signatures are fixed-size dummies (witness content is not validated, only its presence)",
+        "aux mode (publisher and aggregator parts, 1/3 of the cases): the AuxSweeper is a harness stub that obeys sweep/interface.go - one extra P2TR output exactly when an input of the set carries a non-empty resolution blob ('no output' is the Result shape prepareSweepTx reads as such: nil error and LeftToSome()==None, i.e. fn.Err[SweepOutput](nil)), extra budget non-negative and additive; blobs are only generated when an aux sweeper is configured (blob inputs exist only with custom channels, which require it), and wallet utxos / anchors never carry one; the extra output's value comes out of the inputs like a required output; the sweeper part runs without AuxSweeper",
+        "half of the anchor inputs carry an unconfirmed parent (CPFP, fee and weight of the commitment) as contractcourt sets it - the budget, maximum-rate and reported-rate bounds speak about the sweep transaction itself, signatures are fixed-size dummies (witness content is not validated, only its presence)",
         "required outputs handed directly to the publisher are not dust (the aggregator filters them; that filter is checked in part 3)",
         "known findings C18:start-above-ceiling and C18:budget-rate-rounded-up are excluded by construction while listed as known",
         "sweeper part: the collector goroutine is not started; the harness calls the handlers its select loop calls (handleNewInput / handleUpdateReq / handleInputSpent / handleBumpEvent / beat body) followed by updateSweeperInputs, reading spend details and bump results from the sweeper's own channels (monitorSpend and monitorFeeBumpResult goroutines are the real ones); a block reaches the sweeper before the publisher (server.registerBlockConsumers order)",
